@@ -139,6 +139,15 @@ def run_native(ctx, mode, per_shard, chunk, threads, ops, samples=2, blob=False,
             rc, out, err = runner.sh([binary, "serde-load", "--blob-in", p], timeout=600)
             reps = parse_reports(out)
             if not reps:
+                # a panic inside the repository's deserializer while reading what its own serializer wrote is a
+                # failed round trip, not a harness problem
+                m = re.search(r"panicked at ([^\s:]+):\d+:\d+:\n([^\n]*)", err)
+                if m and m.group(1).startswith(runner.REPO_PREFIX):
+                    where = os.path.relpath(m.group(1), runner.REPO_PREFIX)
+                    return {"findings": [{"property": "C05", "rule": "serde-round-trip",
+                                          "signature": f"C05/serde-round-trip/deserializer-panicked@{where}",
+                                          "detail": f"re-reading blob {os.path.basename(p)} in a fresh process panicked at {where}: {m.group(2)[:160]}",
+                                          "case": {"blob": p, "stderr": err[-600:], "history_seed": None}}], "stats": {}}
                 raise Inconclusive(f"serde-load died (rc {rc}): {err[-300:]}")
             return reps[-1]
         loaded = [r for r in runner.run_shards(jobs, load) if r]
